@@ -165,7 +165,7 @@ def file_resource_leak(alias: int, u0: int, u1: int, u2: int, wrap: int) -> bool
 def sql_parameterization(style: int, nparams: int, split: int, var: int) -> bool:
     """sql-parameterization (complete real pipeline: linearisation, format-string parsing, quote surgery, clean-up
     passes) on a closed sqlite3 program whose query is built INSIDE A FUNCTION from 1-3 parameters by `+`, an f-string,
-    printf `%` or str.format, written as one literal, adjacent literals or literals joined with `+` (the split falling
+    printf `%`, str.format or a formatter-style parenthesised concatenation (one operand per line), written as one literal, adjacent literals or literals joined with `+` (the split falling
     between the placeholder and its closing quote), inline or through a variable: executed against an in-memory
     database with each of 4 benign value tuples, the rewritten program prints the same rows and raises the same
     exception type as the original.
